@@ -90,8 +90,8 @@ Lemma LI_close : forall lg bk n b, LogInv lg bk n -> (b < n)%nat ->
   LogInv ((b, OpClose) :: lg) (fupd bk b (bk b + 1)) n.
 Proof.
   intros lg bk n b (Hc & Ho & Hu & Hf) Hb. repeat split.
-  - intro b'. cbn. unfold fupd. rewrite Hc.
-    destruct (Nat.eqb_spec b b'); destruct (Nat.eqb_spec b' b); subst; try congruence; cbn; lia.
+  - intro b'. cbn [closes]. change (is_close OpClose) with true. unfold fupd. rewrite Hc.
+    destruct (Nat.eqb_spec b b'); destruct (Nat.eqb_spec b' b); subst; try congruence; cbn [andb]; lia.
   - cbn. rewrite andb_false_r. apply Ho.
   - cbn. rewrite andb_false_r. apply Ho.
   - cbn. discriminate.
@@ -104,7 +104,7 @@ Lemma LI_alloc : forall lg bk n, LogInv lg bk n ->
 Proof.
   intros lg bk n (Hc & Ho & Hu & Hf). repeat split.
   - intro b'. cbn. rewrite andb_false_r. unfold fupd. rewrite Hc.
-    destruct (Nat.eqb_spec b' n); subst; auto.
+    destruct (Nat.eqb_spec b' n); subst; auto. rewrite Hf; lia.
   - cbn. intro H. destruct (Nat.eqb_spec n b); cbn in H; [lia|]. apply Ho in H. lia.
   - cbn. intro H. destruct (Nat.eqb_spec n b); cbn; [easy|]. apply Ho. lia.
   - intros _. rewrite Hc. apply Hf. lia.
@@ -128,10 +128,17 @@ Record Inv (s : state) : Prop := mkInv {
 
 Lemma inv_init : Inv init.
 Proof.
-  constructor; cbn; intros; try lia; try easy.
-  - destruct i; [reflexivity|lia].
-  - exfalso. apply (H0 0%nat); lia.
-  - repeat split; cbn; intros; try easy.
-    + destruct (Nat.eqb_spec 0 b); cbn in H; [lia|easy].
-    + destruct (Nat.eqb_spec 0 b); cbn; [easy|lia].
+  constructor; cbn.
+  - lia.
+  - intros; lia.
+  - intros; lia.
+  - reflexivity.
+  - intros i Hi. destruct i; [reflexivity|lia].
+  - reflexivity.
+  - intros b Hb H. exfalso. apply (H 0%nat); lia.
+  - easy.
+  - easy.
+  - unfold LogInv. split; [|split; [|split]]; cbn; try easy.
+    + intro b. now rewrite andb_false_r.
+    + intro b. destruct b; cbn; split; intro H; try easy; lia.
 Qed.
